@@ -149,13 +149,30 @@ def ensure_makefile(dirs=None):
     return mkname
 
 
-def coq_make(targets, timeout=3000, dirs=None):
-    """Full .vo build of the given targets (never -vos), serialised across concurrent checks."""
+def coq_make(targets, timeout=1500, dirs=None):
+    """Full .vo build of the given targets (never -vos).  Concurrent checks are serialised per Coq directory: the
+    shared Lib files are built first under a global lock (seconds), then the property's own directories under their
+    own locks, so a slow or hung build of one property cannot hold up the checks of the others."""
     os.makedirs(os.path.join(ROOT, "work"), exist_ok=True)
     with open(os.path.join(ROOT, "work", ".coq.lock"), "w") as lk:
         fcntl.flock(lk, fcntl.LOCK_EX)
         mk = ensure_makefile(dirs)
+        libs = [f + "o" for f in coq_files(["Lib"])]
+        rc, out = run(["make", "-f", mk, "-j16"] + libs, cwd=COQ, timeout=600)
+        if rc != 0 or dirs is None:
+            if dirs is None and rc == 0:
+                return run(["make", "-f", mk, "-j16"] + targets, cwd=COQ, timeout=timeout)
+            return rc, out
+    held = []
+    try:
+        for d in sorted(x for x in dirs if x != "Lib"):
+            f = open(os.path.join(ROOT, "work", ".coq.%s.lock" % d), "w")
+            fcntl.flock(f, fcntl.LOCK_EX)
+            held.append(f)
         return run(["make", "-f", mk, "-j16"] + targets, cwd=COQ, timeout=timeout)
+    finally:
+        for f in held:
+            f.close()
 
 
 def parse_assumptions(out):
